@@ -144,7 +144,9 @@ class Pool:
                 proto.connection_made(tr)
                 return proto
 
-        self.conn = Connector(limit=limit, limit_per_host=lph, keepalive_timeout=ka)
+        # bit 5 of `mask`: force_close=True (then keepalive_timeout must not be given)
+        self.conn = (Connector(limit=limit, limit_per_host=lph, force_close=True) if mask >> 5 & 1
+                     else Connector(limit=limit, limit_per_host=lph, keepalive_timeout=ka))
         self.reqs = []
         for t, k in enumerate(self.keys):
             r = ClientRequestBase("GET", URL(f"http://h{k}/"), headers=CIMultiDict(), loop=self.loop, ssl=True)
@@ -154,7 +156,7 @@ class Pool:
             self.reqs.append(r)
         self.timeout = ClientTimeout(total=None, connect=1000.0)
         self.traces = [[] for _ in self.keys]
-        if mask:
+        if mask & 31:
             from types import SimpleNamespace
             from aiohttp import TraceConfig
             from aiohttp.tracing import Trace
